@@ -4,6 +4,9 @@ Property theorems about `Model/Sig.lean` at coefficient type `Lin` (`Model/Lin.l
 -/
 import SageoptModel.Model.Sig
 import SageoptModel.Model.Lin
+import SageoptModel.Lemmas.LinSig
+import SageoptModel.Lemmas.SigMapGrid
+import SageoptModel.Props.C12
 
 namespace Sageopt.Props.C13
 open Sageopt Sageopt.Sig
@@ -13,5 +16,282 @@ open Sageopt Sageopt.Sig
     accepts only the identically-zero form. -/
 theorem isZero_iff (x : Lin) : Lin.isZero x = true ↔ x.bad = false ∧ x.co = [] ∧ x.off = 0 := by
   simp [Lin.isZero, List.isEmpty_iff, and_assoc]
+
+/-- substitute values for the scalar variables in every coefficient -/
+def mapσ (σ : Nat → Rat) (f : SigT Lin) : SigT Rat := ⟨f.n, f.terms.map fun t => (t.1, Lin.value σ t.2)⟩
+
+/-- no coefficient carries the poison flag (product of two non-constant expressions) -/
+def Clean (f : SigT Lin) : Prop := ∀ t ∈ f.terms, t.2.bad = false
+
+/-- representation invariant on the Lin side (the same as `Sig.Wf`, which is stated for any C) -/
+abbrev WfL (f : SigT Lin) : Prop := Wf f
+
+/-! the affine-form operations mean what they say, under every assignment -/
+theorem value_const (σ : Nat → Rat) (q : Rat) : Lin.value σ (Lin.const q) = q := Lin.value_const σ q
+
+theorem value_add (σ : Nat → Rat) (x y : Lin) : Lin.value σ (x + y) = Lin.value σ x + Lin.value σ y :=
+  Lin.value_add σ x y
+
+theorem value_scale (σ : Nat → Rat) (q : Rat) (x : Lin) : Lin.value σ (Lin.scale q x) = q * Lin.value σ x :=
+  Lin.value_scale σ q x
+
+theorem value_neg (σ : Nat → Rat) (x : Lin) : Lin.value σ (-x) = - Lin.value σ x := Lin.value_neg σ x
+
+theorem value_mul (σ : Nat → Rat) (x y : Lin) (h : (x * y).bad = false) :
+    Lin.value σ (x * y) = Lin.value σ x * Lin.value σ y := Lin.value_mul σ x y h
+
+/-- the product is rejected (poisoned) exactly when both factors are non-constant (or an operand already was) -/
+theorem mul_bad_iff (x y : Lin) :
+    (x * y).bad = true ↔ (x.bad = true ∨ y.bad = true ∨ (x.isConstant = false ∧ y.isConstant = false)) :=
+  Lin.mul_bad_iff x y
+
+/-! terms are dropped only when identically zero — and the test has no access to variable values -/
+theorem isZero_sound (x : Lin) (h : Lin.isZero x = true) : ∀ σ : Nat → Rat, Lin.value σ x = 0 :=
+  fun σ => Lin.isZero_value σ x h
+
+/-- every term that `without_zeros` removes has an identically-zero coefficient (the zero affine form) -/
+theorem drop_only_identically_zero (f : SigT Lin) (hf : Wf f) (t : Exp × Lin)
+    (ht : t ∈ f.terms) (hdrop : ∀ c, (t.1, c) ∉ (withoutZeros Lin.isZero f).terms) :
+    t.2.co = [] ∧ t.2.off = 0 ∧ t.2.bad = false := by
+  have hz : Lin.isZero t.2 = true := by
+    by_contra hnz
+    have hkeep : t ∈ keepNZ Lin.isZero f := by
+      unfold keepNZ
+      exact List.mem_filter.2 ⟨ht, by simpa using hnz⟩
+    rcases Gen.withoutZeros_terms Lin.isZero f hf with e | ⟨hk, _⟩ | e
+    · exact hdrop t.2 (by rw [e]; exact ht)
+    · rw [hk] at hkeep
+      simp at hkeep
+    · exact hdrop t.2 (by rw [e]; exact hkeep)
+  obtain ⟨h1, h2, h3⟩ := (isZero_iff t.2).1 hz
+  exact ⟨h2, h3, h1⟩
+
+private theorem mapσ_wf (σ : Nat → Rat) (f : SigT Lin) (hf : Wf f) : Wf (mapσ σ f) :=
+  Hom.wf_mapT (Lin.value σ) hf
+
+/-- `without_zeros` preserves the represented function under every assignment -/
+theorem withoutZeros_map (σ : Nat → Rat) (f : SigT Lin) (hf : Wf f) (a : Exp) :
+    coeff (mapσ σ (withoutZeros Lin.isZero f)).terms a = coeff (mapσ σ f).terms a :=
+  Hom.coeff_mapT_withoutZeros (LinC.value_isAddHom σ) Lin.isZero (LinC.isZero_value σ) f hf a
+
+/-! arithmetic, then substitution  =  substitution, then arithmetic   (as coefficient functions) -/
+theorem map_mk (σ : Nat → Rat) (n : Nat) (ts : List (Exp × Lin)) (a : Exp) :
+    coeff (mapσ σ (mk n ts)).terms a = coeff (mk n (ts.map fun t => (t.1, Lin.value σ t.2))).terms a :=
+  Hom.coeff_mapT_mk (LinC.value_isAddHom σ) n ts a
+
+theorem map_const (σ : Nat → Rat) (n : Nat) (x : Lin) (a : Exp) :
+    coeff (mapσ σ (const n x)).terms a = coeff (const n (Lin.value σ x)).terms a :=
+  map_mk σ n [(zeroExp n, x)] a
+
+set_option linter.unusedVariables false in
+theorem map_sumList (σ : Nat → Rat) (n : Nat) (fs : List (SigT Lin)) (hfs : ∀ f ∈ fs, Wf f ∧ f.n = n)
+    (hne : fs ≠ []) (a : Exp) :
+    coeff (mapσ σ (sumList n fs)).terms a = (fs.map fun f => coeff (mapσ σ f).terms a).sum :=
+  Hom.coeff_mapT_sumList (LinC.value_isAddHom σ) n fs (fun f hf => (hfs f hf).1) a
+
+theorem map_add (σ : Nat → Rat) (f g h : SigT Lin) (hf : Wf f) (hg : Wf g)
+    (hadd : add Lin.isZero f g = .ok h) (a : Exp) :
+    Wf h ∧ coeff (mapσ σ h).terms a = coeff (mapσ σ f).terms a + coeff (mapσ σ g).terms a := by
+  unfold add at hadd
+  split at hadd
+  · exact absurd hadd (by simp)
+  · rename_i hn
+    have hn : f.n = g.n := not_not.1 hn
+    simp only [Res.ok.injEq] at hadd
+    subst hadd
+    have hfs : ∀ x ∈ [f, g], Wf x ∧ x.n = f.n := by
+      intro x hx
+      simp only [List.mem_cons, List.not_mem_nil, or_false] at hx
+      rcases hx with rfl | rfl
+      · exact ⟨hf, rfl⟩
+      · exact ⟨hg, hn.symm⟩
+    have hs : Wf (sumList f.n [f, g]) := Gen.sumList_wf f.n [f, g] hfs
+    refine ⟨Gen.withoutZeros_wf Lin.isZero _ hs, ?_⟩
+    rw [withoutZeros_map σ _ hs, map_sumList σ f.n [f, g] hfs (by simp)]
+    simp
+
+theorem map_sub (σ : Nat → Rat) (f g h : SigT Lin) (hf : Wf f) (hg : Wf g)
+    (hsub : sub Lin.isZero f g = .ok h) (a : Exp) :
+    Wf h ∧ coeff (mapσ σ h).terms a = coeff (mapσ σ f).terms a - coeff (mapσ σ g).terms a := by
+  unfold sub at hsub
+  obtain ⟨h1, h2⟩ := map_add σ f _ h hf (Gen.smul_wf Lin.isZero g hg (-1)) hsub a
+  refine ⟨h1, ?_⟩
+  have hs : coeff (mapσ σ (smul Lin.isZero g (-1))).terms a =
+      coeff (mapσ σ g).terms a * Lin.value σ (-(1 : Lin)) :=
+    Hom.coeff_mapT_smul (LinC.value_isAddHom σ) Lin.isZero (LinC.isZero_value σ) g hg (-1)
+      (fun t _ => Lin.value_mul_of_right_const σ t.2 _ Lin.neg_one_isConstant) a
+  rw [h2, hs, Lin.value_neg_one]
+  ring
+
+/-- products (one factor numeric, as in `s_g * g`): evaluation against any character (multiplicative
+    on the grid rows the model forms) commutes, provided the code did not reject the product -/
+theorem map_mul (σ : Nat → Rat) (n : Nat) (χ : Exp → Rat) (hχ : IsGridChar n χ) (f g h : SigT Lin)
+    (hf : Wf f) (hg : Wf g) (hfn : f.n = n) (hmul : mul Lin.isZero f g = .ok h) (hclean : Clean h) :
+    Wf h ∧ eval χ (mapσ σ h).terms = eval χ (mapσ σ f).terms * eval χ (mapσ σ g).terms := by
+  unfold mul at hmul
+  split at hmul
+  · exact absurd hmul (by simp)
+  · rename_i hn
+    have hn : f.n = g.n := not_not.1 hn
+    simp only [Res.ok.injEq] at hmul
+    subst hmul
+    have hp : Wf (product f g) := Gen.product_wf f g hf hg hn
+    refine ⟨Gen.withoutZeros_wf Lin.isZero _ hp, ?_⟩
+    have hcp : LinC.CleanT (product f g).terms := LinC.cleanT_of_withoutZeros hp hclean
+    have hm : ∀ t1 ∈ f.terms, ∀ t2 ∈ g.terms,
+        Lin.value σ (t1.2 * t2.2) = Lin.value σ t1.2 * Lin.value σ t2.2 :=
+      fun t1 h1 t2 h2 => Lin.value_mul σ _ _ (LinC.clean_products_of_product hf hg hcp t1 h1 t2 h2)
+    rw [eval_congr_coeff χ (withoutZeros_map σ _ hp)]
+    exact Hom.eval_mapT_product_grid (LinC.value_isAddHom σ) n χ hχ f g hf hg hfn (hn ▸ hfn) hm
+
+/-- commutation with the numeric operation itself: computing `f + g` symbolically and substituting
+    gives the same coefficient function as substituting and adding numerically -/
+theorem add_commutes (σ : Nat → Rat) (f g h : SigT Lin) (h' : SigT Rat) (hf : Wf f) (hg : Wf g)
+    (hadd : add Lin.isZero f g = .ok h) (hadd' : add isZeroQ (mapσ σ f) (mapσ σ g) = .ok h') (a : Exp) :
+    coeff (mapσ σ h).terms a = coeff h'.terms a := by
+  rw [(map_add σ f g h hf hg hadd a).2,
+    (C12.add_hom isZeroQ isZeroQ_iff _ _ h' (mapσ_wf σ f hf) (mapσ_wf σ g hg) hadd').2.1 a]
+
+theorem mul_commutes (σ : Nat → Rat) (n : Nat) (χ : Exp → Rat) (hχ : IsGridChar n χ) (f g h : SigT Lin) (h' : SigT Rat)
+    (hf : Wf f) (hg : Wf g) (hfn : f.n = n)
+    (hmul : mul Lin.isZero f g = .ok h) (hclean : Clean h) (hmul' : mul isZeroQ (mapσ σ f) (mapσ σ g) = .ok h') :
+    eval χ (mapσ σ h).terms = eval χ h'.terms := by
+  rw [(map_mul σ n χ hχ f g h hf hg hfn hmul hclean).2,
+    (mul_hom_grid n χ hχ _ _ h' (mapσ_wf σ f hf) (mapσ_wf σ g hg) hfn hmul').2]
+
+/-! ### non-vacuity: the hypotheses of the theorems above are satisfiable, with coefficients that
+really contain scalar variables (concrete values are checked by `decide` on the executable model;
+core `Rat` operations and the well-founded `Lin.merge` are irreducible, hence `with_unfolding_all`) -/
+section NonVacuity
+
+@[instance_reducible] private def decEqSig {C : Type} [DecidableEq C] : DecidableEq (SigT C) := fun a b =>
+  match a, b with
+  | ⟨n1, t1⟩, ⟨n2, t2⟩ =>
+    if h : n1 = n2 ∧ t1 = t2 then isTrue (by rw [h.1, h.2])
+    else isFalse (fun e => h (by cases e; exact ⟨rfl, rfl⟩))
+
+@[instance_reducible] private def decEqRes {C : Type} [DecidableEq C] : DecidableEq (Res (SigT C)) := fun a b =>
+  match a, b with
+  | .ok x, .ok y =>
+    match decEqSig x y with
+    | isTrue h => isTrue (by rw [h])
+    | isFalse h => isFalse (fun e => h (by cases e; rfl))
+  | .raises x, .raises y =>
+    if h : x = y then isTrue (by rw [h]) else isFalse (fun e => h (by cases e; rfl))
+  | .ok _, .raises _ => isFalse (fun e => by cases e)
+  | .raises _, .ok _ => isFalse (fun e => by cases e)
+
+attribute [local instance] decEqSig decEqRes
+
+/-- `x₀·e^{y₁} + 3·e^{y₂/2}`: the first coefficient is the scalar variable `x₀` -/
+private def fL : SigT Lin := ⟨2, [([1, 0], Lin.var 0), ([0, 1/2], Lin.const 3)]⟩
+/-- `−3·e^{y₂/2} + (1 + 2x₁)·e^{2y₁}` -/
+private def gL : SigT Lin := ⟨2, [([0, 1/2], Lin.const (-3)), ([2, 0], ⟨1, [(1, 2)], false⟩)]⟩
+/-- a numeric signomial (all coefficients constant): `−3·e^{y₂/2} + 2·e^{2y₁}` -/
+private def cL : SigT Lin := ⟨2, [([0, 1/2], Lin.const (-3)), ([2, 0], Lin.const 2)]⟩
+/-- an assignment: `x₀ = 1/3`, `x₁ = 4/3`, … -/
+private def σEx : Nat → Rat := fun i => (i : Rat) + 1/3
+
+private theorem grid_of {ts : List (Exp × Lin)} (h : ∀ t ∈ ts, ∀ q ∈ t.1, round7 q = q) :
+    ∀ t ∈ ts, OnGrid t.1 := h
+
+private theorem fL_wf : WfL fL := ⟨by decide, grid_of (by with_unfolding_all decide), by decide⟩
+private theorem gL_wf : WfL gL := ⟨by decide, grid_of (by with_unfolding_all decide), by decide⟩
+private theorem cL_wf : WfL cL := ⟨by decide, grid_of (by with_unfolding_all decide), by decide⟩
+
+-- affine forms: un-normalised inputs are covered as well (`value_add` has no hypotheses)
+example : Lin.value σEx (Lin.var 1 + Lin.const 2) = 10/3 := by with_unfolding_all decide
+example : Lin.value σEx (⟨1, [(3, 2), (1, 5), (3, -2), (2, 0)], false⟩ + ⟨2, [(2, 7), (3, 0), (1, -5)], true⟩) =
+    Lin.value σEx ⟨1, [(3, 2), (1, 5), (3, -2), (2, 0)], false⟩ + Lin.value σEx ⟨2, [(2, 7), (3, 0), (1, -5)], true⟩ :=
+  value_add _ _ _
+example : (Lin.var 0 * Lin.var 1).bad = true := (mul_bad_iff _ _).2 (Or.inr (Or.inr ⟨rfl, rfl⟩))
+example : Lin.value σEx (Lin.var 0 * Lin.const 2) = Lin.value σEx (Lin.var 0) * Lin.value σEx (Lin.const 2) :=
+  value_mul _ _ _ (by with_unfolding_all decide)
+example : Lin.isZero (Lin.var 0 + Lin.neg (Lin.var 0)) = true := by with_unfolding_all decide
+example : Lin.isZero (Lin.var 0) = false := by with_unfolding_all decide
+
+-- sums: the cancelling term `3·e^{y₂/2} − 3·e^{y₂/2}` is dropped, the symbolic ones are kept
+private theorem addEx : add Lin.isZero fL gL =
+    .ok ⟨2, [([1, 0], Lin.var 0), ([2, 0], ⟨1, [(1, 2)], false⟩)]⟩ := by with_unfolding_all decide
+example (σ : Nat → Rat) (a : Exp) :
+    coeff (mapσ σ ⟨2, [([1, 0], Lin.var 0), ([2, 0], ⟨1, [(1, 2)], false⟩)]⟩).terms a =
+      coeff (mapσ σ fL).terms a + coeff (mapσ σ gL).terms a :=
+  (map_add σ fL gL _ fL_wf gL_wf addEx a).2
+private theorem addEx' : add isZeroQ (mapσ σEx fL) (mapσ σEx gL) =
+    .ok ⟨2, [([1, 0], 1/3), ([2, 0], 11/3)]⟩ := by with_unfolding_all decide
+example (a : Exp) :
+    coeff (mapσ σEx ⟨2, [([1, 0], Lin.var 0), ([2, 0], ⟨1, [(1, 2)], false⟩)]⟩).terms a =
+      coeff [([1, 0], (1/3 : Rat)), ([2, 0], 11/3)] a :=
+  add_commutes σEx fL gL _ _ fL_wf gL_wf addEx addEx' a
+example (σ : Nat → Rat) (a : Exp) :
+    coeff (mapσ σ (sumList 2 [fL, gL, fL])).terms a =
+      ([fL, gL, fL].map fun f => coeff (mapσ σ f).terms a).sum :=
+  map_sumList σ 2 [fL, gL, fL] (by
+    intro f hf
+    simp only [List.mem_cons, List.not_mem_nil, or_false] at hf
+    rcases hf with rfl | rfl | rfl
+    · exact ⟨fL_wf, rfl⟩
+    · exact ⟨gL_wf, rfl⟩
+    · exact ⟨fL_wf, rfl⟩) (by simp) a
+
+-- the term `without_zeros` removes from `f + g` is the zero affine form
+private def sL : SigT Lin := sumList 2 [fL, gL]
+private theorem sL_terms : sL.terms =
+    [([1, 0], Lin.var 0), ([0, 1/2], ⟨0, [], false⟩), ([2, 0], ⟨1, [(1, 2)], false⟩)] := by
+  with_unfolding_all decide
+private theorem sL_wf : WfL sL := ⟨by rw [sL_terms]; decide,
+  by rw [sL_terms]; exact grid_of (by with_unfolding_all decide), by rw [sL_terms]; decide⟩
+private theorem sL_wz : (withoutZeros Lin.isZero sL).terms =
+    [([1, 0], Lin.var 0), ([2, 0], ⟨1, [(1, 2)], false⟩)] := by with_unfolding_all decide
+example : (⟨0, [], false⟩ : Lin).co = [] ∧ (⟨0, [], false⟩ : Lin).off = 0 ∧ (⟨0, [], false⟩ : Lin).bad = false :=
+  drop_only_identically_zero sL sL_wf ([0, 1/2], ⟨0, [], false⟩) (by rw [sL_terms]; simp) (by
+    intro c hc
+    rw [sL_wz] at hc
+    simp at hc)
+example (σ : Nat → Rat) (a : Exp) :
+    coeff (mapσ σ (withoutZeros Lin.isZero sL)).terms a = coeff (mapσ σ sL).terms a :=
+  withoutZeros_map σ sL sL_wf a
+
+-- differences
+private theorem subEx : sub Lin.isZero fL gL =
+    .ok ⟨2, [([1, 0], Lin.var 0), ([0, 1/2], Lin.const 6), ([2, 0], ⟨-1, [(1, -2)], false⟩)]⟩ := by
+  with_unfolding_all decide
+example (σ : Nat → Rat) (a : Exp) :
+    coeff (mapσ σ ⟨2, [([1, 0], Lin.var 0), ([0, 1/2], Lin.const 6), ([2, 0], ⟨-1, [(1, -2)], false⟩)]⟩).terms a =
+      coeff (mapσ σ fL).terms a - coeff (mapσ σ gL).terms a :=
+  (map_sub σ fL gL _ fL_wf gL_wf subEx a).2
+
+-- products: symbolic × numeric is accepted and clean; symbolic × symbolic is poisoned
+private def mL : SigT Lin :=
+  ⟨2, [([1, 1/2], ⟨0, [(0, -3)], false⟩), ([0, 1], Lin.const (-9)), ([3, 0], ⟨0, [(0, 2)], false⟩),
+    ([2, 1/2], Lin.const 6)]⟩
+private theorem mulEx : mul Lin.isZero fL cL = .ok mL := by with_unfolding_all decide
+private theorem mL_clean : Clean mL := by
+  unfold Clean
+  with_unfolding_all decide
+example (σ : Nat → Rat) :
+    eval pow2Char (mapσ σ mL).terms = eval pow2Char (mapσ σ fL).terms * eval pow2Char (mapσ σ cL).terms :=
+  (map_mul σ 2 pow2Char (pow2Char_isGridChar 2) fL cL mL fL_wf cL_wf rfl mulEx mL_clean).2
+private theorem mulEx' : mul isZeroQ (mapσ σEx fL) (mapσ σEx cL) =
+    .ok ⟨2, [([1, 1/2], -1), ([0, 1], -9), ([3, 0], 2/3), ([2, 1/2], 6)]⟩ := by with_unfolding_all decide
+example : eval pow2Char (mapσ σEx mL).terms =
+    eval pow2Char [([1, 1/2], (-1 : Rat)), ([0, 1], -9), ([3, 0], 2/3), ([2, 1/2], 6)] :=
+  mul_commutes σEx 2 pow2Char (pow2Char_isGridChar 2) fL cL mL _ fL_wf cL_wf rfl mulEx mL_clean mulEx'
+example : ∃ h, mul Lin.isZero fL gL = .ok h ∧ ¬ Clean h := by
+  refine ⟨⟨2, [([1, 1/2], ⟨0, [(0, -3)], false⟩), ([0, 1], Lin.const (-9)), ([3, 0], ⟨0, [], true⟩),
+    ([2, 1/2], ⟨3, [(1, 6)], false⟩)]⟩, by with_unfolding_all decide, ?_⟩
+  intro hc
+  exact absurd (hc ([3, 0], ⟨0, [], true⟩) (by simp)) (by simp)
+
+-- constants and the constructor
+example (σ : Nat → Rat) (a : Exp) :
+    coeff (mapσ σ (const 2 (Lin.var 3))).terms a = coeff (const 2 (σ 3)).terms a := by
+  have h := map_const σ 2 (Lin.var 3) a
+  have hv : Lin.value σ (Lin.var 3) = σ 3 := by simp [Lin.value, Lin.var]
+  rwa [hv] at h
+example : mk 1 [([1/3], Lin.var 0), ([0.33333333], Lin.var 1), ([0], Lin.const 7)] =
+    ⟨1, [([0], Lin.const 7), ([0.3333333], ⟨0, [(0, 1), (1, 1)], false⟩)]⟩ := by with_unfolding_all decide
+
+end NonVacuity
 
 end Sageopt.Props.C13
